@@ -4,7 +4,7 @@ import numpy as np
 import nets
 
 PID = "C08"
-THEOREMS = ["push_fold", "strahler_spec", "kids_mem", "classic_spec", "main_upstream_spec"]
+THEOREMS = ["push_fold", "strahler_spec", "kids_mem", "classic_spec", "main_upstream_spec", "strahler_fits"]
 RULE = ("all loop-free closed graphs on n<=5 cells (n<=6 thorough, junction degree up to 5) x downstream-closed masks, "
         "stars with 3..8 tributaries of prescribed orders (every multiset over {1,2,3} up to size 5, random up to 8), "
         "random forests to 60 cells, upstream-area fields with ties for main_upstream; kernels and "
@@ -85,6 +85,20 @@ def cases(tier, rng):
         # fractional areas: quarters, so that floor() would change the ranking
         yield {"k": 803, "args": [ds, [rng.randint(0, 9) for _ in range(n)], [rng.choice([0, 0, 2])]],
                "call": {"api": rng.choice(["kernel", "vec", "ras"]), "scale": 4}, "group": "rand-main-fractional"}
+
+
+def corpus():
+    # known finding F13: a chain whose every node also receives a leaf that is declared the main upstream cell, so the
+    # chain is the "other branch" at 260 nested confluences: classic order 261 does not fit the uint8 result
+    K = 260
+    n = 2 * K + 1
+    ds = [0] * n
+    main = [-1] * n
+    for k in range(1, K + 1):
+        ds[k] = k - 1
+        ds[K + k] = k - 1
+        main[k - 1] = K + k
+    return [{"k": 802, "args": [ds, nets.topo_order(ds), [0], [], main], "group": "corpus-F13-deep-nesting"}]
 
 
 def impl(case):
@@ -216,7 +230,10 @@ def oracle(case, out):
         return None if out == [exp] else ("strahler", f"expected {exp} got {out}")
     if k == 802:
         exp = _classic(ds, m, a[4])
-        return None if out == [exp] else ("classic", f"expected {exp} got {out}")
+        if out != [exp] and max(exp) > 255 and len(out[0]) == n and all(o == e % 256 for o, e in zip(out[0], exp)):
+            return ("classic:uint8-wrap", f"classic order exceeds 255 and wraps around in the uint8 result: expected max {max(exp)}, "
+                                          f"got {out[0][max(range(n), key=lambda i: exp[i])]} there ({n}-node network nested {max(exp) - 1} deep)")
+        return None if out == [exp] else ("classic", f"expected {str(exp)[:300]} got {str(out)[:300]}")
     if k == 805:
         exp = _classic(ds, m, _main(ds, _uparea(ds), 0))
         return None if out == [exp] else ("classic:api", f"expected {exp} got {out}")
